@@ -9,9 +9,9 @@ theorems quantify over every state satisfying the representation invariant
 `Inv` (which `step` preserves from the initial state: `C07_inv_step`).
 
 "Path of a filter": `(entryLevels f).1`, the levels the store's entry points
-walk - `levels f` (the iteration of `nextTopicLevel`) unless `f` begins with
-'$', in which case `checkSys` turns it away before any level is read and
-`entryLevels f = ([], false)` (`Proofs.Topics.entryLevels_of_not_sys/_of_sys`).
+walk - `levels f` (the iteration of `nextTopicLevel`) unless `f` is empty or
+begins with '$', in which case `checkTopic` turns it away before any level is
+read and `entryLevels f = ([], false)` (`Proofs.Topics.entryLevels_of_not_sys/_of_sys`).
 `good f`: no empty level (finding B3) and not beginning with '$' (outside the
 property's quantifier).
 -/
@@ -136,14 +136,32 @@ def C07_codes_spec_full : Prop :=
   ∀ (mt : MemTopics) (c : Nat) (topics : List (Bytes × Nat)), (∀ tq ∈ topics, dollar tq.1 = false) →
     topics.map (grantCode mt c) = topics.map (fun tq => Mqtt.Spec.Broker.subCode tq.1 tq.2)
 
-/-- False of the code as it is, in the family of finding B3 (empty levels): the
-empty filter - a single empty level, not a filter at all by 4.7.3 - is accepted
-by the store (`sinsert` with `len(topic) == 0` registers the subscriber at the
-root) and answered with the granted QoS where the specification demands 0x80. -/
-theorem C07_codes_spec_full_counterexample : ¬ C07_codes_spec_full := by
-  intro h
-  have := h MemTopics.new 1 [([], 1)] (by decide)
-  exact absurd this (by decide)
+/-- The full statement holds since finding B6 was repaired.  Its last
+counterexample was the empty filter - not a filter at all by MQTT-4.7.3-1 -,
+which the store used to accept (`sinsert` with `len(topic) == 0` registered the
+subscriber at the root) and which `checkTopic` now turns away: 0x80 on both
+sides.  No hypothesis about empty levels is needed: finding B3 changes which
+levels are stored and matched, not which filters are accepted
+(`Proofs.Topics.levels_ok`: the walk ends without an error exactly when every
+level is valid, for every byte string). -/
+theorem C07_codes_spec_full_holds : C07_codes_spec_full := by
+  intro mt c topics hd
+  apply List.map_congr_left
+  intro tq htq
+  rw [← modelCode_not_dollar tq.1 tq.2 (hd tq htq)]
+  simp only [grantCode, modelCode, subscribe_snd]
+  cases accepts tq.1 tq.2 <;> simp
+
+/-- the former witnesses, now answered as the specification demands: the empty
+filter gets 0x80 on both sides; filters with empty levels ("/a", "a/", "a//b",
+"/") are valid and granted on both sides, "#/" (a level after '#') is refused on
+both sides -/
+theorem C07_codes_empty_filter :
+    grantCode MemTopics.new 1 ([], 1) = 0x80 ∧ Mqtt.Spec.Broker.subCode [] 1 = 0x80 ∧
+    [([47, 97], 1), ([97, 47], 2), ([97, 47, 47, 98], 0), ([47], 1), ([35, 47], 1)].map (grantCode MemTopics.new 1) =
+      [1, 2, 0, 1, 0x80] ∧
+    [([47, 97], 1), ([97, 47], 2), ([97, 47, 47, 98], 0), ([47], 1), ([35, 47], 1)].map
+      (fun tq => Mqtt.Spec.Broker.subCode tq.1 tq.2) = [1, 2, 0, 1, 0x80] := by decide
 
 /-- the regenerated server maximum is the protocol's -/
 theorem C07_facts_maxQos : Mqtt.Generated.maxQosAllowed = Mqtt.Spec.Broker.maxQos := facts_maxQos
